@@ -61,6 +61,9 @@ func TestMain(m *testing.M) {
 		if rp.Phase == "long_lived_session" {
 			ev.RunReplay(rp, runLong)
 		}
+		if rp.Phase == "faulty_clients_beside_streaming_ones" {
+			ev.RunReplay(rp, runChurn)
+		}
 		if rp.Phase == "two_connections" {
 			ev.RunReplay(rp, runCase2)
 		}
@@ -484,7 +487,7 @@ func runReal(c Case) *ev.Failure {
 			}
 		}
 	}()
-	defer func() { cp.Stop(); close(stopDrain); <-drained }()
+	defer func() { stopBounded(cp); close(stopDrain); <-drained }()
 	fs := fields()
 	// the other connection
 	otherDone := make(chan struct{})
@@ -590,6 +593,17 @@ func runReal(c Case) *ev.Failure {
 	return nil
 }
 
+// stopBounded calls Stop and gives it 15 s: a collector that a failed case left stuck must not
+// keep the failure from being reported (its goroutines are left behind then).
+func stopBounded(cp *collector.CollectingProcess) {
+	done := make(chan struct{})
+	go func() { cp.Stop(); close(done) }()
+	select {
+	case <-done:
+	case <-time.After(15 * time.Second):
+	}
+}
+
 func lens(ch [][]byte) []int {
 	var out []int
 	for _, c := range ch {
@@ -673,7 +687,7 @@ func runLong(c LongCase) *ev.Failure {
 			}
 		}
 	}()
-	defer func() { cp.Stop(); close(stopDrain); <-drained }()
+	defer func() { stopBounded(cp); close(stopDrain); <-drained }()
 	var conn net.Conn
 	if c.TLS {
 		roots := x509.NewCertPool()
@@ -753,6 +767,30 @@ func TestC11(t *testing.T) {
 		lw.Add(1)
 		go func(k int) { defer lw.Done(); longFails[k] = runLong(longCases[k]) }(k)
 	}
+	// faulty clients coming and going beside connections that stream without pause
+	churnCases := []ChurnCase{{Good: 6, Bad: 8, Kind: "notemplate", Seconds: 6, MaxBuf: 1024}}
+	if rec.Thorough() {
+		churnCases = []ChurnCase{{Good: 6, Bad: 8, Kind: "notemplate", Seconds: 40, MaxBuf: 1024}, {Good: 3, Bad: 12, Kind: "badtemplate", Seconds: 20}, {Good: 8, Bad: 4, Kind: "badversion", Seconds: 20}, {Good: 1, Bad: 2, Kind: "notemplate", Seconds: 40}}
+	}
+	churnFails := make([]*ev.Failure, len(churnCases))
+	lw.Add(1)
+	go func() {
+		defer lw.Done()
+		for k := range churnCases {
+			churnFails[k] = runChurn(churnCases[k])
+		}
+	}()
+	defer func() {
+		lw.Wait()
+		for k, c := range churnCases {
+			rec.Case(ev.Hash(c), true, "faulty_clients_beside_streaming_ones")
+			rec.Sample("faulty_clients_beside_streaming_ones", c)
+			if churnFails[k] != nil {
+				rec.Violation("faulty_clients_beside_streaming_ones", c, churnFails[k].Msg)
+				t.Errorf("%s", churnFails[k].Msg)
+			}
+		}
+	}()
 	defer func() {
 		lw.Wait()
 		for k, c := range longCases {
